@@ -13,24 +13,31 @@ from enc import enc_ggrammar
 
 MANIFEST_ENTRY = {
     "category": "proof",
-    "text": "The scanner model (Model/Lex.lean: _token_recognition with sorted candidates, finish flags and early "
-            "exit on priority drop, STOP handling, _lexical_disambiguation) is run against Parser._next_tokens in "
-            "every state and at every position of every input for generated terminal sets (strings incl. prefixes "
-            "of each other, regexes, custom recognizers, priorities, prefer, finish/nofinish, ignore_case, "
-            "lexical_disambiguation on/off); the implementation's outcome is compared with the order-free rule set "
-            "R1-R5 of Spec/LexRules.lean whenever no explicit finish mark is involved; sorting and finish flags "
-            "are covered by exact table correspondence. Theorems: every scanned token is an expected terminal "
-            "whose recognizer matches with that length; disambiguation returns only longest matches and only "
-            "preferred ones when a longest match is preferred; nothing is returned that was not recognized",
-    "note": "trusted: Lean kernel; that the scanner's shortcuts equal R1-R5 for ALL terminal sets is compared on the "
-            "explored sets, not proved (the sortedness argument is not mechanised yet); recognizers are data",
-    "technique": "Lean 4 lemmas on the scanner model + model/implementation correspondence + order-free spec oracle",
+    "text": "Lean 4 theorems, for every table, recognizer behaviour, state and position: if a state's expected list "
+            "is sorted by non-increasing priority with string-like terminals first inside a priority group and carries "
+            "finish flags consistent with calc_finish_flags (two decidable conditions), then _next_tokens -- with its "
+            "candidate order, finish flags and early exit on priority drop -- returns exactly the order-free rule set "
+            "R1-R5 of Spec/LexRules.lean on the candidates, STOP only when admissible and nothing else matches "
+            "(C07_next_tokens_eq_rules); with lexical disambiguation off it returns every candidate of the highest "
+            "matching priority (C07_next_tokens_nolex); every scanned token is an expected terminal whose recognizer "
+            "matches with that length. The two conditions are EVALUATED by the compiled model on every state of every "
+            "table the implementation builds for the generated terminal sets (strings incl. prefixes of each other, "
+            "regexes, custom recognizers, keywords, priorities, prefer, ignore_case); the scanner model is compared "
+            "with Parser._next_tokens in every state at every position; the implementation's outcome is compared "
+            "with R1-R5 directly; sorting and flags are also covered by exact table correspondence",
+    "note": "trusted: Lean kernel; Spec/LexRules.lean is the reading of the documented order; the input-dependent "
+            "side condition strDecB (no two expected string-like terminals of one priority match the same position "
+            "with the same length) is evaluated per position and counted; explicit finish/nofinish marks change the "
+            "outcome by documented design: for them only the model (characterisation) is compared, not R1-R5; "
+            "recognizers are data",
+    "technique": "Lean 4 proof (induction over the sorted candidate list) + hypotheses evaluated on the implementation's tables + model/implementation correspondence",
 }
 
 PROP = "C07"
 LEVEL = "proof"
 THEOREMS = ["C07_tokens_are_matching_expected", "C07_disamb_sublist", "C07_disamb_longest",
-            "C07_disamb_prefer", "C07_scan_only_expected"]
+            "C07_disamb_prefer", "C07_scan_only_expected", "C07_next_tokens_eq_rules", "C07_next_tokens_nolex",
+            "scan_eq_rules", "recognize_eq_scanSpec", "lexSortedB_sound", "flagsOKB_sound", "strDecB_sound"]
 META = {
     "rule": "cases = (terminal set with attributes, grammar making different states expect different subsets, "
             "ignore_case, lexical_disambiguation, state, input, position); non-trivial = position where >= 2 "
@@ -201,19 +208,39 @@ def run_unit(u):
                         qm = b.add("tokens", state.state_id, pos, 1 if consume else 0, 1 if lexdis else 0)
                         qr = b.add("rules", state.state_id, pos, 1 if lexdis else 0, strlike) \
                             if (not marks and pos < len(text)) else None
-                        checks.append((case, impl, qm, qr))
+                        qh = b.add("lexhyp", state.state_id, pos, strlike) if qr is not None else None
+                        checks.append((case, impl, qm, qr, qh))
             out = b.run()
+            broken_states = set()
             st["traces"] += len(checks)
             if out[qt] != want_t:
                 res["disagreements"].append({"case": {"grammar": gtxt, "lexical_disambiguation": lexdis},
                                              "model": out[qt][:300], "impl": want_t[:300], "what": "sorted table"})
-            for case, impl, qm, qr in checks:
+            for case, impl, qm, qr, qh in checks:
                 def pairs(line):
                     xs = [int(x) for x in line.split()[1:]]
                     return sorted(zip(xs[0::2], xs[1::2]))
                 m = pairs(out[qm])
                 if m != impl:
                     res["disagreements"].append({"case": case, "model": m, "impl": impl})
+                if qh is not None:
+                    # hypotheses of C07_next_tokens_eq_rules / C07_next_tokens_nolex on the implementation's own
+                    # sorted action list and finish flags: where they hold the theorem gives model = R1-R5
+                    lenok, srt, flg, dec, allfalse = [int(x) for x in out[qh].split()[1:]]
+                    table_ok = lenok and srt and (flg if case["lexical_disambiguation"] else allfalse)
+                    if table_ok and (dec or not case["lexical_disambiguation"]):
+                        st["theorem_applies"] = st.get("theorem_applies", 0) + 1
+                    elif table_ok:
+                        st["tie_between_equal_strings"] = st.get("tie_between_equal_strings", 0) + 1
+                    else:
+                        key = (case["grammar"], case["lexical_disambiguation"], case["state"])
+                        if key not in broken_states:
+                            broken_states.add(key)
+                            res["disagreements"].append({
+                                "case": {k: case[k] for k in ("grammar", "ignore_case", "lexical_disambiguation", "state")},
+                                "what": "the sorted action list / finish flags of this state do not satisfy the hypotheses "
+                                        "of C07_next_tokens_eq_rules (lenok, sorted, flags, all-false) = %s"
+                                        % [lenok, srt, flg, allfalse]})
                 if qr is not None:
                     st["rule_checks"] += 1
                     r = pairs(out[qr])
